@@ -523,6 +523,7 @@ add_constructor('!rec:', _rec_constructor_md)
 
 def _node_representer(dumper, node):
     from .nodes.bind import BindNode
+    from .nodes.function import FunctionNode
     tag, metadata, data = node.ayns.represent()
     if data is None:
         assert not tag
@@ -560,11 +561,22 @@ def _node_representer(dumper, node):
         current = metadata[f]
         parent = parent_metadata.get(f, None) if parent_metadata else None
         default = type_defaults[f]
-        if current is not None:
+        if current is None:
+            del metadata[f]
+        elif f == 'priority':
+            # pushed onto every descendant when the container is parsed; None and STANDARD are the same priority
             if current == parent or current == default:
                 del metadata[f]
-        else:
-            del metadata[f]
+        elif f == 'delete':
+            # FunctionNode.__init__ restores its explicit True
+            if current is True and isinstance(node, FunctionNode):
+                del metadata[f]
+        # any other explicit 'delete', 'allow_new', 'safe' is always written: an explicit flag equal to the type default
+        # still overrides what the node inherits, and one equal to what it inherits here is lost as soon as the
+        # enclosing node is replaced (!append / !extend at premerge) or the node is moved (!prev)
+
+    # what this node writes - as a plain tag or encoded - is what its children may leave out
+    pushed = { **parent_metadata, **{ key: value for key, value in metadata.items() if key in tags_to_infer } }
 
     metadata = { key: value for key, value in metadata.items() if key not in dumper.exclude_metadata }
 
@@ -592,7 +604,7 @@ def _node_representer(dumper, node):
 
     pop = False
     if isinstance(node, ComposedNode):
-        dumper.metadata.append({ **parent_metadata, **metadata })
+        dumper.metadata.append(pushed)
         pop = True
 
     try:
